@@ -36,7 +36,8 @@ Instr  == chart.host # "plain" /\ chart.spied
 Queued == chart.host \in {"queued", "factory"}
 States == 1..chart.n
 
-Name(s)     == IF s = 0 THEN "top" ELSE "s" \o ToString(s)
+(* the __name__ of a state function: unique names s1, s2, .. unless the chart says otherwise (several states may share a name) *)
+Name(s)     == IF s = 0 THEN "top" ELSE IF "names" \in DOMAIN chart THEN chart.names[s] ELSE "s" \o ToString(s)
 Tag(sg, ss) == [i \in 1..Len(ss) |-> <<sg, ss[i]>>]
 Inner3      == {"ENTRY_SIGNAL", "EXIT_SIGNAL", "INIT_SIGNAL"}
 InnerSig(sg) == sg \in Inner3 \cup {"REFLECTION_SIGNAL", "EMPTY_SIGNAL", "SEARCH_FOR_SUPER_SIGNAL",
@@ -105,6 +106,7 @@ ApplyEff(S, ef) ==
                               ELSE [q |-> AppR(S.q, Head(S.dq)), dq |-> Tail(S.dq), nid |-> S.nid,
                                     mark |-> <<"recall", Head(S.dq)[1], Head(S.dq)[2]>>]
     [] ef[1] = "scribble"  -> [q |-> S.q, dq |-> S.dq, nid |-> S.nid, mark |-> <<"scribble", ef[2], 0>>]
+    [] ef[1] = "cs"        -> [q |-> S.q, dq |-> S.dq, nid |-> S.nid, mark |-> <<"cs", "", 0>>]        \* current_state() asked from inside a handler: no effect
     [] ef[1] = "raise"     -> [q |-> S.q, dq |-> S.dq, nid |-> S.nid, mark |-> <<"raise", "", 0>>]   \* the handler fails here
 
 Faulted(marks) == marks # <<>> /\ marks[Len(marks)][1] = "raise"
@@ -213,18 +215,18 @@ External(ef) ==
 
 (* C22: queries answer from the active path and change nothing the chart can observe *)
 IsIn(X, log) ==
-  /\ started /\ X \in States
+  /\ started /\ X \in States \cup {0}       \* 0: chart.top, which encloses every state
   /\ res' = IF Encl(chart.par, X, cur) THEN "T" ELSE "F"
   /\ rtc' = IF Instr THEN rtc \o LogLines(log) ELSE rtc
   /\ alog' = <<>> /\ did' = 0 /\ liveS' = <<>> /\ liveT' = <<>>
   /\ UNCHANGED <<chart, started, cur, q, dq, nid, full, trc, hist>>
 
 ChildOf(P) == LET up == Up(chart.par, cur)
-                  i  == CHOOSE k \in 1..Len(up) : up[k] = P
-              IN IF i = 1 THEN cur ELSE up[i - 1]
+                  i  == IF P = 0 THEN Len(up) + 1 ELSE CHOOSE k \in 1..Len(up) : up[k] = P
+              IN IF i = 1 THEN cur ELSE up[i - 1]         \* the child of top is the outermost active state
 ChildState(P, log) ==
-  /\ started /\ P \in States
-  /\ res' = IF P \in SeqSet(Up(chart.par, cur)) THEN ToString(ChildOf(P)) ELSE "raise"
+  /\ started /\ P \in States \cup {0}
+  /\ res' = IF P = 0 \/ P \in SeqSet(Up(chart.par, cur)) THEN ToString(ChildOf(P)) ELSE "raise"
   /\ rtc' = IF Instr THEN rtc \o LogLines(log) ELSE rtc
   /\ alog' = <<>> /\ did' = 0 /\ liveS' = <<>> /\ liveT' = <<>>
   /\ UNCHANGED <<chart, started, cur, q, dq, nid, full, trc, hist>>
